@@ -863,6 +863,7 @@ func main() {
 	fs := flag.NewFlagSet("all", flag.ExitOnError)
 	nseq := fs.Int("nseq", 300, "sequential scripts")
 	nfree := fs.Int("nfree", 300, "free-running runs")
+	nstorm := fs.Int("nstorm", 6, "storm runs (tight writers vs subscribe/unsubscribe loops)")
 	maxLen := fs.Int("len", 24, "")
 	seed := fs.Uint64("seed", 1, "")
 	out := fs.String("out", "cases.v", "")
@@ -906,6 +907,7 @@ func main() {
 			break // goroutines of the hung run are still alive: stop here, the failure is recorded
 		}
 	}
+	storms(r.Fork(), st, *nstorm)
 	keys := make([]string, 0)
 	for k := range st.Hist {
 		keys = append(keys, k)
